@@ -1,9 +1,9 @@
 package props
 
 import (
-	"math/big"
 	"encoding/json"
 	"fmt"
+	"math/big"
 	"math/rand"
 	"sort"
 	"strings"
